@@ -1291,6 +1291,26 @@ func (run *simRun) probe(name string, args []interface{}) {
 		ld := args[0].(*leader)
 		if ni := run.incOf(ld.Raft); ni != nil && !ni.dead && ni.obs.started {
 			run.led.onDoChangeConfig(ni, ld, args[2].(Config))
+			// a fault placed where it matters: a snapshot (and with it a compaction) right after
+			// a node left the configuration, while its replication is still winding down
+			if run.phase == "chaos" && run.prof.Snapshot > 0 {
+				c := args[2].(Config)
+				removes := false
+				for id := range ld.repls {
+					if _, ok := c.Nodes[id]; !ok {
+						removes = true
+					}
+				}
+				if removes && run.tape.Chance(rt.StPlan, 1, 2) {
+					after := int64(run.cfg.LatBase) * int64(run.tape.Choose(rt.StPlan, 8)) / 2
+					run.sim.After(after, "snapshot-after-removal", func() {
+						if run.phase == "chaos" && !ni.dead && !ni.exited {
+							run.fault("snapshot_after_removal")
+							run.spawnAdmin("snapshot", func(a *admin) { a.submit(ni, TakeSnapshot(0), "snapshot", 40*run.cfg.HB) })
+						}
+					})
+				}
+			}
 		}
 	case "leader.storeEntry:enter":
 		ld := args[0].(*leader)
@@ -1387,6 +1407,9 @@ func (run *simRun) probe(name string, args []interface{}) {
 			if acked > ni.acked && acked > r.snaps.index {
 				if t, err := r.storage.getEntryTerm(acked); err == nil {
 					ni.acked, ni.ackedTerm = acked, t
+					if acked > ni.ackedMax {
+						ni.ackedMax = acked
+					}
 				}
 			}
 			if ni.pendN == 0 {
